@@ -6,6 +6,7 @@ import (
 	"fmt"
 	"os"
 	"runtime"
+	"sort"
 	"strconv"
 	"strings"
 	"sync"
@@ -56,7 +57,8 @@ var errScripted = errors.New("scripted failure")
 // under is the scripted wrapped writer.
 type under struct {
 	script  []opSpec
-	idx     int
+	cur     int    // index of the scripted call in progress, set by the writing goroutine before each call
+	reached []bool // the wrapped writer was called for script[i]
 	gated   bool
 	entered chan int
 	gate    chan struct{}
@@ -64,11 +66,19 @@ type under struct {
 	viaStr  int
 	viaWr   int
 	badLen  int
+	extra   int // calls beyond one per scripted call
 }
 
 func (u *under) do(l int, viaString bool) (int, error) {
-	i := u.idx
-	u.idx++
+	// keyed on the call the writing goroutine announced, not on a running count: a ProgressWriter that does
+	// not forward a zero-length write must not shift the script
+	i := u.cur
+	if i < len(u.reached) {
+		if u.reached[i] {
+			u.extra++
+		}
+		u.reached[i] = true
+	}
 	if viaString {
 		u.viaStr++
 	} else {
@@ -185,6 +195,8 @@ type result struct {
 	viaStr      int
 	viaWr       int
 	retMismatch int
+	skipped     []bool
+	lat         []time.Duration // gated kinds: gate release -> the call returned
 }
 
 func yield(n int) {
@@ -197,7 +209,7 @@ var blockBound = time.Second
 
 // oneRun executes one scripted run. plan bits steer the slow consumer and the pauses.
 func oneRun(wk, ck int, script []opSpec, plan uint64) result {
-	u := &under{script: script, gated: wk == wPlainGated || wk == wStringGated,
+	u := &under{script: script, reached: make([]bool, len(script)), gated: wk == wPlainGated || wk == wStringGated,
 		entered: make(chan int, 1), gate: make(chan struct{}), aborted: make(chan struct{})}
 	var pw *ioutil.ProgressWriter
 	if wk == wPlainGated || wk == wPlainFree {
@@ -227,6 +239,8 @@ func oneRun(wk, ck int, script []opSpec, plan uint64) result {
 	wexit := make(chan struct{})
 	sizes := make([]int, len(script))
 	retBad := 0
+	skipped := make([]bool, len(script))
+	lat := make([]time.Duration, 0, len(script))
 	startW := make(chan struct{})
 	go func() {
 		defer close(wexit)
@@ -234,12 +248,16 @@ func oneRun(wk, ck int, script []opSpec, plan uint64) result {
 		for i, op := range script {
 			var n int
 			var err error
+			u.cur = i
 			if op.str {
 				n, err = pw.WriteString(strings.Repeat("s", op.n))
 			} else {
 				n, err = pw.Write(make([]byte, op.n))
 			}
-			if n != op.k || (err != nil) != op.err {
+			if !u.reached[i] {
+				// the call was answered without asking the wrapped writer: nothing was reported for it
+				skipped[i] = true
+			} else if n != op.k || (err != nil) != op.err {
 				retBad++
 			}
 			sizes[i] = pw.Size()
@@ -322,6 +340,16 @@ func oneRun(wk, ck int, script []opSpec, plan uint64) result {
 		if u.gated {
 			select {
 			case <-u.entered:
+			case <-wdone:
+				// the call returned without reaching the wrapped writer: fine for a zero-length write
+				// (it contributes 0 either way), a defect otherwise
+				if script[i].n != 0 {
+					res.viol = fmt.Sprintf("call-%d-of-%d-bytes-returned-without-reaching-the-wrapped-writer", i, script[i].n)
+					res.sizes = sizes[:i]
+					abort()
+					return res
+				}
+				continue
 			case <-time.After(blockBound):
 				res.viol = fmt.Sprintf("call-%d-did-not-reach-the-wrapped-writer", i)
 				abort()
@@ -331,11 +359,15 @@ func oneRun(wk, ck int, script []opSpec, plan uint64) result {
 		if (plan>>(16+uint(i)%16))&1 == 1 || (ck == cOnce && i == 0) {
 			yield(3) // give the consumer a chance to block in its receive
 		}
+		t0 := time.Now()
 		if u.gated {
 			u.gate <- struct{}{}
 		}
 		select {
 		case <-wdone:
+			if u.gated {
+				lat = append(lat, time.Since(t0))
+			}
 		case <-time.After(blockBound):
 			res.viol = fmt.Sprintf("Write-blocked-at-call-%d", i)
 			res.sizes = sizes[:i]
@@ -384,6 +416,16 @@ func oneRun(wk, ck int, script []opSpec, plan uint64) result {
 	res.closed = c.closed
 	res.viaStr, res.viaWr = u.viaStr, u.viaWr
 	res.retMismatch = retBad + u.badLen
+	res.skipped = skipped
+	res.lat = lat
+	for i, s := range skipped {
+		if s && script[i].n != 0 && res.viol == "" {
+			res.viol = fmt.Sprintf("call-%d-of-%d-bytes-returned-without-reaching-the-wrapped-writer", i, script[i].n)
+		}
+	}
+	if u.extra > 0 && res.viol == "" {
+		res.viol = fmt.Sprintf("wrapped-writer-called-%d-times-too-often", u.extra)
+	}
 	return res
 }
 
@@ -394,7 +436,11 @@ func caseFields(tag string, wk, ck int, script []opSpec, r result) []string {
 		if i < len(r.sizes) {
 			sz = r.sizes[i]
 		}
-		f = append(f, b2s(op.str), strconv.Itoa(op.n), strconv.Itoa(op.k), b2s(op.err), strconv.Itoa(sz))
+		k, er := op.k, op.err
+		if i < len(r.skipped) && r.skipped[i] {
+			k, er = 0, false // the wrapped writer was not asked: it reported nothing
+		}
+		f = append(f, b2s(op.str), strconv.Itoa(op.n), strconv.Itoa(k), b2s(er), strconv.Itoa(sz))
 	}
 	f = append(f, strconv.Itoa(len(r.recv)))
 	for _, v := range r.recv {
@@ -434,7 +480,14 @@ func parseCase(line string) (wk, ck int, script []opSpec, ok bool) {
 	return wk, ck, script, true
 }
 
+func median(d []time.Duration) time.Duration {
+	s := append([]time.Duration(nil), d...)
+	sort.Slice(s, func(i, j int) bool { return s[i] < s[j] })
+	return s[len(s)/2]
+}
+
 func run(e *hk.Env) error {
+	t0run := time.Now()
 	// three goroutines per run: more Ps only make the scheduler spin on a busy machine
 	if os.Getenv("GOMAXPROCS") == "" && runtime.NumCPU() > 4 {
 		runtime.GOMAXPROCS(4)
@@ -594,6 +647,47 @@ func run(e *hk.Env) error {
 		wk, ck := r.Intn(4), r.Intn(5)
 		emit(wk, ck, sc, oneRun(wk, ck, sc, r.U64()))
 	}
+	// A Write must not wait for a receiver: with nobody receiving it has to be as quick as with a consumer
+	// parked in its receive. Latency = from releasing the gated wrapped writer to the return of the call.
+	// A stall is reported only if the median over 200 calls is too long in each of three rounds
+	// (bound: 300 us + 20 x the median with a waiting consumer; the unchanged code stays below 1/10 of it).
+	{
+		sc := make([]opSpec, 200)
+		for i := range sc {
+			sc[i] = opSpec{false, 1, 1, false}
+		}
+		stalled, rounds := 0, 3
+		var medA, medW time.Duration
+		for round := 0; round < rounds && viol < maxViol; round++ {
+			ra := oneRun(wPlainGated, cAbsent, sc, 0)
+			rw := oneRun(wPlainGated, cFast, sc, ^uint64(0))
+			emit(wPlainGated, cAbsent, sc, ra)
+			emit(wPlainGated, cFast, sc, rw)
+			if ra.viol != "" || rw.viol != "" || len(ra.lat) == 0 || len(rw.lat) == 0 {
+				break
+			}
+			medA, medW = median(ra.lat), median(rw.lat)
+			e.Stats[fmt.Sprintf("write_latency_round%d_us_absent_vs_waiting", round)] = fmt.Sprintf("%.1f / %.1f",
+				float64(medA.Nanoseconds())/1e3, float64(medW.Nanoseconds())/1e3)
+			if medA > 300*time.Microsecond+20*medW {
+				stalled++
+			}
+		}
+		if stalled == rounds {
+			viol++
+			e.Case("VIOL", "write-stalls-when-nobody-receives", fmt.Sprintf("median_latency_us_consumer_absent=%d", medA.Microseconds()),
+				fmt.Sprintf("consumer_waiting=%d", medW.Microseconds()), "E", "0", "0", "1", "0", "1", "1", "0", "-1", "0", "0")
+		}
+	}
+	budget := 90 * time.Second
+	if e.Thorough() {
+		budget = 25 * time.Minute
+	}
+	if el := time.Since(t0run); el > budget {
+		viol++
+		e.Case("VIOL", "harness-wall-budget-exceeded", fmt.Sprintf("elapsed_s=%d", int(el.Seconds())), fmt.Sprintf("budget_s=%d", int(budget.Seconds())))
+	}
+	e.Stats["harness_elapsed_s"] = int(time.Since(t0run).Seconds())
 	e.Stats["random_scripts"] = nRandom
 	e.Stats["random_len_hist_by_8"] = lenHist
 	for k, v := range stats {
